@@ -5,6 +5,7 @@
 -/
 import Props.Tables
 import Jmes.Interp
+import Proofs.Printer
 namespace Jmes.Props
 open Jmes Jmes.Interp
 
@@ -145,5 +146,32 @@ theorem C02_element_error_propagates (f : Val N → Res (Val N)) (xs : List (Val
         | panic p => simp
       | err e => simp
       | panic p => simp
+
+/-! ### where a projection's right-hand side ends (from the printer theorem, C03)
+
+`a[*].b.c` written without parentheses is the projection of `a` whose
+right-hand side is the whole of `b.c`; a pipe ends it. -/
+
+open Jmes.Spec Jmes.Parser in
+theorem C02_rhs_extends_over_dots (a bb c : Bytes) :
+    parseTokens (N := N) Generated.table
+      ([tk .uident a, tk .lbracket, tk .star, tk .rbracket, tk .dot, tk .uident bb, tk .dot, tk .uident c, eofTok 0]) =
+      .ok (.proj (.field a) (.sub (.field bb) (.field c))) := by
+  have hw : Parser.wf (.bstar (.ident a) (.dot (.sub (.ident bb) (.ident c))) : PE N) := by
+    simp [Parser.wf, Parser.wfRhs, dotOK, first, PE.isListOrHash, PE.level, PE.rp]
+  have := round_trip_spec (N := N) _ hw
+  rw [parseTokens_congr (sameDecisions_of_tableOK Generated.table Spec.table generated_table_ok spec_table_ok)]
+  simpa [ppE, ppRhs, PE.rp, Rhs.rp, PE.isListOrHash, node, nodeRhs] using this
+
+open Jmes.Spec Jmes.Parser in
+theorem C02_pipe_ends_the_rhs (a bb c : Bytes) :
+    parseTokens (N := N) Generated.table
+      ([tk .uident a, tk .lbracket, tk .star, tk .rbracket, tk .dot, tk .uident bb, tk .pipe, tk .uident c, eofTok 0]) =
+      .ok (.pipe (.proj (.field a) (.field bb)) (.field c)) := by
+  have hw : Parser.wf (.bin .pipe (.bstar (.ident a) (.dot (.ident bb))) (.ident c) : PE N) := by
+    simp [Parser.wf, Parser.wfRhs, dotOK, first, PE.isListOrHash, PE.level, PE.rp]
+  have := round_trip_spec (N := N) _ hw
+  rw [parseTokens_congr (sameDecisions_of_tableOK Generated.table Spec.table generated_table_ok spec_table_ok)]
+  simpa [ppE, ppRhs, PE.rp, Rhs.rp, PE.level, PE.isListOrHash, node, nodeRhs, BinOp.pow, BinOp.tok, BinOp.node] using this
 
 end Jmes.Props
